@@ -32,6 +32,7 @@ static const VSpec VM_SPEC[VM_NS] = {
 #define VM_NESTED_PLANS 1
 #include "tier_c/machine_common.hpp"
 struct A : St<1> {}; struct B : St<2> {}; struct B1 : St<3> {}; struct N : St<4> {}; struct N1 : St<5> {}; struct N2 : St<6> {};
+#define VM_FOR_STATES(F_) F_(A, 1) F_(B, 2) F_(B1, 3) F_(N, 4) F_(N1, 5) F_(N2, 6)
 #include "tier_c/view.hpp"
 #include "tier_c/steps.hpp"
 #include "tier_c/entries.hpp"
